@@ -14,10 +14,14 @@ EXTENDS Families, Parser, Json
 
 CONSTANTS Mode, MaxLen, Shard, NShards, OutFile, Seed, Stride, Stride3
 
-AlphaSeq == <<T("star"), T("dot"), T("filter"), T("flatten"), T("lparen"), T("rparen"), T("lbracket"), T("rbracket"),
+(* Mode "deep": longer strings (MaxLen 6) over the few tokens that nest -- parentheses, an unquoted and a quoted identifier, comma, @ --
+   for what only shows behind a parenthesised operand: `(abs)(a)`, `((a))`, `f((a),(b))` ... *)
+AlphaDeep == <<T("lparen"), T("rparen"), <<"uid", <<97, 98, 115>>>>, <<"qid", <<98>>>>, T("comma"), T("current")>>
+AlphaFull == <<T("star"), T("dot"), T("filter"), T("flatten"), T("lparen"), T("rparen"), T("lbracket"), T("rbracket"),
               T("lbrace"), T("rbrace"), T("or"), T("pipe"), <<"number", 0>>, <<"uid", <<97>>>>, <<"qid", <<98>>>>, T("comma"),
               T("colon"), T("lt"), <<"jsonlit", IntV(1)>>, T("current"), T("expref"), T("and"), T("not"), T("unknown"),
               T("eq"), <<"strlit", <<97>>>>, <<"number", -1>>, <<"uid", <<97, 98, 115>>>> >>      \* ... , ==, 'a', -1, abs
+AlphaSeq == IF Mode = "deep" THEN AlphaDeep ELSE AlphaFull
 NA == Len(AlphaSeq)
 RECURSIVE CountUpTo(_)
 CountUpTo(n) == IF n < 0 THEN 0 ELSE CountUpTo(n - 1) + PowN(NA, n)
@@ -66,7 +70,7 @@ MutantsOut ==
       CatCases(j) == IF j > Len(sents) THEN <<>> ELSE casesOf(sents[j]) \o CatCases(j + 1)
   IN <<[k |-> "docs", fam |-> "C04m", total |-> g.total, docs |-> SearchDocs]>> \o CatCases(1)
 
-ASSUME LET out == IF Mode = "strings" THEN StringsOut ELSE MutantsOut IN
+ASSUME LET out == IF Mode \in {"strings", "deep"} THEN StringsOut ELSE MutantsOut IN
        /\ PrintT(<<"GEN", Mode, "emitted", Len(out) - 1>>)
        /\ ndJsonSerialize(OutFile, out)
 VARIABLE x
